@@ -24,7 +24,8 @@ func TestProp(t *testing.T) {
 		"grpctest.MockService is the service data; units it answers randomly are found by the per-run pre-pass and excluded from the consistency oracle",
 		"the in-process owning subgraph of the fed rig answers deterministically")
 	r.RequireLabel("rig:plain", "rig:fed", "seen:unit:resolver", "seen:unit:requires", "seen:unit:entity-field", "seen:abstract-object", "seen:nested-list",
-		"reform:alias", "reform:aliasdup", "reform:reorder", "reform:dup", "reform:inline-fragment", "reform:named-fragment", "reform:subset", "consistency:compared")
+		"reform:alias", "reform:aliasdup", "reform:reorder", "reform:dup", "reform:inline-fragment", "reform:named-fragment", "reform:subset", "consistency:compared",
+		"seen:service-fact:argument-echo", "seen:service-fact:entity-name-of-key", "seen:service-fact:id-names-the-type")
 	for _, name := range []string{"plain", "fed"} {
 		st, err := unitStates(name)
 		if err != nil {
